@@ -669,7 +669,16 @@ func corruptBases(thorough bool) []corruptBase {
 }
 
 // canonicalTree runs the nominal scenario of a base once and returns the first response of the targeted kind.
-func canonicalTree(b corruptBase) (interface{}, []byte) {
+func canonicalTree(b corruptBase) (tree interface{}, body []byte, err error) {
+	defer func() {
+		if e := recover(); e != nil {
+			err = fmt.Errorf("%v", e)
+		}
+	}()
+	return canonicalTree1(b)
+}
+
+func canonicalTree1(b corruptBase) (interface{}, []byte, error) {
 	sp := b.Spec()
 	sp.Case = "canonical/" + b.Name
 	t := getTemplate(sp.Branch, sp.Set)
@@ -703,14 +712,18 @@ func canonicalTree(b corruptBase) (interface{}, []byte) {
 	body := srv.canon[b.Kind]
 	srv.mu.Unlock()
 	if body == nil {
-		panic(vx.ToolError{Msg: "canonical run of " + b.Name + " produced no " + b.Kind + " response"})
+		return nil, nil, fmt.Errorf("canonical run of %s produced no %s response", b.Name, b.Kind)
 	}
 	tree, err := parseTree(body)
 	if err != nil {
-		panic(vx.ToolError{Msg: err.Error()})
+		return nil, nil, err
 	}
-	return tree, body
+	return tree, body, nil
 }
+
+// basesSkipped lists corruption bases whose nominal run did not reach the response to corrupt.  On a tree that conforms this is a tool
+// error; on a tree where the nominal scenarios already violate the property it is a consequence (reported after the exploration).
+var basesSkipped []string
 
 // ---------------------------------------------------------------------------------------------------
 
@@ -821,7 +834,11 @@ func buildParts(c *vx.Check) []part {
 		if only := os.Getenv("VERIF_ONLY"); only != "" && !strings.HasPrefix(only, "corrupt") {
 			break
 		}
-		tree, body := canonicalTree(b)
+		tree, body, err := canonicalTree(b)
+		if err != nil {
+			basesSkipped = append(basesSkipped, err.Error())
+			continue
+		}
 		muts := genericMutations(tree)
 		if b.Batch {
 			muts = append(muts, batchSpecificMutations(tree)...)
@@ -934,7 +951,20 @@ func TestVerifC18(t *testing.T) {
 		vparts = append(vparts, vx.Part{Scenario: p.name, Stats: st, Exec: func(pp []vx.Point) vx.Result { return vx.SafeRun(run, pp) }})
 	}
 	extra := map[string]interface{}{"oracle_clause_evaluations": clause, "requests_validated_by_kind": reqKinds}
-	os.Exit(c.Finish(vparts, extra))
+	if len(basesSkipped) > 0 {
+		extra["corruption_bases_skipped"] = basesSkipped
+	}
+	rc := c.Finish(vparts, extra)
+	if len(basesSkipped) > 0 {
+		for _, b := range basesSkipped {
+			fmt.Println("NOTE corruption base skipped:", b)
+		}
+		if rc == 0 {
+			fmt.Println("TOOL-ERROR property=C18 nominal scenarios conform but a canonical response could not be obtained")
+			rc = 2
+		}
+	}
+	os.Exit(rc)
 }
 
 var startT = time.Now()
